@@ -2,6 +2,7 @@ package main
 
 import (
 	"fmt"
+	"go/constant"
 	"go/token"
 	"go/types"
 	"sort"
@@ -99,6 +100,14 @@ func ruleBalanceSign(c *Ctx) {
 		if len(p) == 0 || p[0] != [2]string{"Amount", "Quantity"} {
 			return ""
 		}
+		// the path ends at the posting: where the posting itself is kept (a slice parameter, a field of a struct
+		// the caller built) does not matter
+		for i, e := range p {
+			if e[0] == "Posting" {
+				p = p[:i+1]
+				break
+			}
+		}
 		for _, e := range p[1:] {
 			if e == [2]string{"Posting", "Cost"} || e == [2]string{"Cost", "Amount"} {
 				return "U"
@@ -112,6 +121,51 @@ func ruleBalanceSign(c *Ctx) {
 	isDecimalMethod := func(call *ssa.Call, name string) bool {
 		cal := call.Call.StaticCallee()
 		return cal != nil && cal.Name() == name && cal.Signature.Recv() != nil && typeHasSuffix(cal.Signature.Recv().Type(), "decimal.Decimal")
+	}
+	// negativeTest: cond is a test of a decimal's sign; reports the decimal and whether the test holds for negative
+	// values: d.IsNegative(), d.Sign() < 0, d.Sign() == -1, d.LessThan(zero), d.Cmp(zero) < 0 (and the >= 0 forms)
+	isZeroDecimal := func(v ssa.Value) bool {
+		switch x := stripConv(v).(type) {
+		case *ssa.UnOp:
+			if g, ok := x.X.(*ssa.Global); ok && x.Op == token.MUL {
+				return g.Name() == "Zero" && g.Pkg != nil && g.Pkg.Pkg.Path() == decimalPkg
+			}
+		}
+		return false
+	}
+	negativeTest := func(cond ssa.Value) (ssa.Value, bool, bool) {
+		switch x := stripConv(cond).(type) {
+		case *ssa.Call:
+			if isDecimalMethod(x, "IsNegative") {
+				return x.Call.Args[0], true, true
+			}
+			if isDecimalMethod(x, "LessThan") && len(x.Call.Args) == 2 && isZeroDecimal(x.Call.Args[1]) {
+				return x.Call.Args[0], true, true
+			}
+			if isDecimalMethod(x, "GreaterThanOrEqual") && len(x.Call.Args) == 2 && isZeroDecimal(x.Call.Args[1]) {
+				return x.Call.Args[0], false, true
+			}
+		case *ssa.BinOp:
+			call, ok := stripConv(x.X).(*ssa.Call)
+			k, isConst := x.Y.(*ssa.Const)
+			if !ok || !isConst || k.Value == nil {
+				return nil, false, false
+			}
+			if !(isDecimalMethod(call, "Sign") || (isDecimalMethod(call, "Cmp") && len(call.Call.Args) == 2 && isZeroDecimal(call.Call.Args[1]))) {
+				return nil, false, false
+			}
+			kv, exact := constant.Int64Val(k.Value)
+			if !exact {
+				return nil, false, false
+			}
+			switch {
+			case x.Op == token.LSS && kv == 0, x.Op == token.EQL && kv == -1, x.Op == token.LEQ && kv == -1:
+				return call.Call.Args[0], true, true
+			case x.Op == token.GEQ && kv == 0, x.Op == token.NEQ && kv == -1, x.Op == token.GTR && kv == -1:
+				return call.Call.Args[0], false, true
+			}
+		}
+		return nil, false, false
 	}
 	type key struct {
 		v  ssa.Value
@@ -130,13 +184,13 @@ func ruleBalanceSign(c *Ctx) {
 			return "", false
 		}
 		for _, cc := range controlCondsPol(nc.Block()) {
-			tc, ok := stripConv(cc.Cond).(*ssa.Call)
-			if !ok || !isDecimalMethod(tc, "IsNegative") {
+			recv, neg, ok := negativeTest(cc.Cond)
+			if !ok {
 				continue
 			}
-			rc := classify(tc.Call.Args[0], cx, depth+1)
+			rc := classify(recv, cx, depth+1)
 			if len(rc) == 1 && rc["A"] {
-				if cc.Taken {
+				if cc.Taken == neg {
 					return "A", true
 				}
 				return "-A", true
@@ -212,16 +266,24 @@ func ruleBalanceSign(c *Ctx) {
 				out[k] = true
 			}
 		case *ssa.Phi:
-			if len(x.Edges) == 2 {
-				for i := 0; i < 2; i++ {
-					if k, ok := negatedByAmount(x.Edges[i], x.Edges[1-i], cx, depth); ok {
+			// a merge of u and Neg(u) - also as two of three or more edges (`q := a; if cost != nil { q = u; if neg
+			// { q = Neg(u) } }` is one phi with three edges) - carries the amount's sign
+			used := map[int]bool{}
+			for i := range x.Edges {
+				for j := range x.Edges {
+					if i == j || used[i] || used[j] {
+						continue
+					}
+					if k, ok := negatedByAmount(x.Edges[i], x.Edges[j], cx, depth); ok {
 						out[k] = true
-						return out
+						used[i], used[j] = true, true
 					}
 				}
 			}
-			for _, e := range x.Edges {
-				add(classify(e, cx, depth+1))
+			for i, e := range x.Edges {
+				if !used[i] {
+					add(classify(e, cx, depth+1))
+				}
 			}
 		case *ssa.Extract:
 			if call, ok := x.Tuple.(*ssa.Call); ok {
